@@ -448,6 +448,10 @@ S(id="RG.check", props=["C10"], spec="rgcheck.spec.c", harness="h_check", mode="
        "no nonterminal of the table has a defect the mode looks for (ghost index), and only then FIRST / FOLLOW are made",
   assumes=["the flags themselves (least fixpoints) are RG.verdict.native's business (bounded); nonterm_get answers record n of the table or NULL from the count on",
            "table size capped by the harness array (64 records); both loops closed by contracts"])
+S(id="T.get", props=["C12", "C10"], spec="symtab.spec.c", harness="h_get", mode="L", canaries=2, enforce=["symb_get/symb_get_c", "term_get/term_get_c", "nonterm_get/nonterm_get_c"],
+  functions=["symb_get", "term_get", "nonterm_get"], params={"quick": {"CAP": 8}, "thorough": {"CAP": 64}},
+  what="element n of the reference array for 0 <= n < count, NULL for every other n (negative, at or beyond the count): no read outside the array; nothing is written "
+       "(this is the contract RG.check and the debug listing of RG.tail assume for nonterm_get)")
 S(id="T.rule.add", props=["C12", "C10"], spec="symtab.spec.c", harness="h_rule_add", mode="L", canaries=2, enforce=["rule_new_symb_add/rule_add_c"],
   replace=["_OS_expand_memory/os_expand_keep_c"], functions=["rule_new_symb_add"], params={"quick": {"CAP": 8, "RCAP": 3}, "thorough": {"CAP": 8, "RCAP": 3}}, mem=32, timeout=1500, tier="thorough",
   bound="the open array holds <= 3 symbols before the call; the function has no loop (thorough tier only: 5 minutes)",
